@@ -872,6 +872,38 @@ class Interp(object):
                 va = alg_weaken(va, idx.a(at))
             alg[at] = alg_lub(ZERO if fresh_empty else arr.a(at), va)
         kind = arr.kind
+
+        def pconst_store():
+            ap = None
+            k_, val_ = None, None
+            if idx.kind == K_SCALAR and idx.has_const() and isinstance(idx.const, int) and not isinstance(idx.const, bool) and idx.const >= 0:
+                k_ = idx.const
+                if v.has_const() and isinstance(v.const, (int, float)) and not isinstance(v.const, bool):
+                    val_ = v.const
+            elif idx.kind == K_SLICE and idx.items is not None and idx.items[2] is None and idx.items[0] is not None and \
+                    idx.items[1] is not None and idx.items[0].has_const() and idx.items[1].has_const() and \
+                    isinstance(idx.items[0].const, int) and idx.items[0].const >= 0 and idx.items[1].const == idx.items[0].const + 1:
+                k_ = idx.items[0].const
+                if isinstance(v.parts, tuple) and v.parts and v.parts[0] == "elems" and len(v.parts[1]) == 1:
+                    val_ = v.parts[1][0]
+                elif v.shape == () and v.has_const() and isinstance(v.const, (int, float)) and not isinstance(v.const, bool):
+                    val_ = v.const
+            if k_ is not None and val_ is not None:
+                ld = dict(arr.parts[2])
+                ld[k_] = val_
+                ap = ("pconst", arr.parts[1], tuple(sorted(ld.items())))
+            elif idx.kind == K_SLICE and idx.items is not None and idx.items[2] is None and idx.items[1] is None and \
+                    idx.items[0] is not None and idx.items[0].has_const() and isinstance(idx.items[0].const, int) and \
+                    not isinstance(idx.items[0].const, bool) and idx.items[0].const >= 0 and isinstance(v.parts, tuple) and v.parts and \
+                    v.parts[0] == "pconst":
+                # x[k:] = (piecewise-constant tail): elements below k keep their values, the rest are the tail's
+                k0 = idx.items[0].const
+                ld = {i: (dict(arr.parts[2]).get(i, arr.parts[1])) for i in range(k0)}
+                ld.update({i + k0: v_ for i, v_ in v.parts[2]})
+                if len(ld) <= 4:
+                    ap = ("pconst", v.parts[1], tuple(sorted(ld.items())))
+            return ap
+
         # placeholder arrays (np.ones_like / np.empty ...) that are overwritten completely: x[:-1] = ..; x[-1] = ..
         cov = None
         if isinstance(arr.note, tuple) and arr.note and arr.note[0] == "init" and idx is not None and arr.shape is not None and len(arr.shape) == 1:
@@ -893,7 +925,8 @@ class Interp(object):
                 cov = ("init", stored, regions)
                 if full:
                     sv = self.api.as_num(stored)
-                    return arr.replace(alg=dict(sv.alg), sign=sv.sign, mono=frozenset(), f0=False, const=_NOCONST, parts=None,
+                    pc_ = pconst_store() if (isinstance(arr.parts, tuple) and arr.parts and arr.parts[0] == "pconst") else None
+                    return arr.replace(alg=dict(sv.alg), sign=sv.sign, mono=frozenset(), f0=False, const=_NOCONST, parts=pc_,
                                        tags=arr.tags | stored.tags | idx.tags, indef=arr.indef or stored.indef, note=cov)
         keep_f0 = False
         if arr.f0 and idx is not None:
@@ -915,23 +948,7 @@ class Interp(object):
                     not isinstance(v.const, bool):
                 ap = ("ap", arr.parts[1], v.const, arr.parts[3])             # x[0] = c
         if ap is None and isinstance(arr.parts, tuple) and arr.parts and arr.parts[0] == "pconst" and idx is not None:
-            k_, val_ = None, None
-            if idx.kind == K_SCALAR and idx.has_const() and isinstance(idx.const, int) and not isinstance(idx.const, bool) and idx.const >= 0:
-                k_ = idx.const
-                if v.has_const() and isinstance(v.const, (int, float)) and not isinstance(v.const, bool):
-                    val_ = v.const
-            elif idx.kind == K_SLICE and idx.items is not None and idx.items[2] is None and idx.items[0] is not None and \
-                    idx.items[1] is not None and idx.items[0].has_const() and idx.items[1].has_const() and \
-                    isinstance(idx.items[0].const, int) and idx.items[0].const >= 0 and idx.items[1].const == idx.items[0].const + 1:
-                k_ = idx.items[0].const
-                if isinstance(v.parts, tuple) and v.parts and v.parts[0] == "elems" and len(v.parts[1]) == 1:
-                    val_ = v.parts[1][0]
-                elif v.shape == () and v.has_const() and isinstance(v.const, (int, float)) and not isinstance(v.const, bool):
-                    val_ = v.const
-            if k_ is not None and val_ is not None:
-                ld = dict(arr.parts[2])
-                ld[k_] = val_
-                ap = ("pconst", arr.parts[1], tuple(sorted(ld.items())))
+            ap = pconst_store()
         # an uninitialised 1-D buffer filled piece by piece: x[0] = a; x[1:-1] = middle; x[-1] = b  (each region once, nothing else) is
         # the assembly [a, middle..., b] that np.insert / np.concatenate would build
         if ap is None and arr.kind == K_ARRAY and arr.shape is not None and len(arr.shape) == 1 and idx is not None and \
